@@ -287,6 +287,12 @@ class Prop:
         """Yield strictly smaller variants of case."""
         return []
 
+    def sample_view(self, case):
+        """How a case is written into the evidence samples (long item lists are abbreviated)."""
+        if isinstance(case, dict) and isinstance(case.get('items'), list) and len(case['items']) > 8:
+            return dict(case, items=case['items'][:8], items_total=len(case['items']))
+        return case
+
     def extract(self, ctx):
         """Regenerate extracted kernels; return dict describing the tie (or None)."""
         return None
@@ -484,7 +490,7 @@ def run_check(prop, tier='quick', seed=0, replay=None):
             if prop.nontrivial(case):
                 nontrivial.add(hashlib.sha1(canon(case).encode()).hexdigest())
             if len(samples) < 3 or (evaluations % 97 == 0 and len(samples) < 8):
-                samples.append(case)
+                samples.append(prop.sample_view(case))
             if mm is None:
                 continue
             if mm.signature in known_sigs:
